@@ -5,4 +5,5 @@ EXTENDS Integers, TLC
 T0 == [k |-> "prim", prim |-> "int32", tag |-> <<0, 0, 0, 0>>, np |-> <<>>, tl2 |-> TRUE, origin2 |-> FALSE, fn |-> FALSE]
 TY(n) == CASE n = "int32" -> T0
 TopNames == <<>>
+AllNames == <<"int32">>
 ====
